@@ -316,6 +316,12 @@ func (m *Morass) Clear() error {
 	m.files = m.files[:0]
 	m.pos = 0
 	m.len = 0
+	m.fast = false
+	if m.chunk != nil {
+		// Not all values were pulled from an in-memory sort.
+		m.chunk = m.chunk[:0]
+		return nil
+	}
 	select {
 	case m.chunk = <-m.pool:
 		if m.chunk == nil {
